@@ -618,7 +618,10 @@ def _parse_fn(blob, shell):
                     i = len(lines) - 1
                     while i > 3 and lines[i].strip() != "}":
                         i -= 1
-                    body = "; ".join(l[4:].rstrip(";") if l.startswith("    ") else l.rstrip(";") for l in lines[4:i])
+                    if any(l.count("'") % 2 for l in lines[4:i]):
+                        body = True     # a quoted word spans lines: the listing cannot be cut into commands line by line
+                    else:
+                        body = "; ".join(l[4:].rstrip(";") if l.startswith("    ") else l.rstrip(";") for l in lines[4:i])
                 fns[name] = body
     return status, fns
 
